@@ -7,9 +7,12 @@ import Driver.C04
 
 /-! Driver for C05 (decoders never panic, never loop forever, never over-allocate on hostile input).
 
-    `wkb <hex> [dest] => um ; st ; sc ; psc ; wsc ; dsc ; dpsc ; dwsc ; A <um> <st> <scan> <stable>`
+    `wkb <hex> [dest] => um ; st ; sc ; psc ; wsc ; dsc ; dpsc ; dwsc ; wum ; wst ; X … ; A <um> <st> <scan> <stable> <wum> <wst>`
       five decode outcomes into a nil destination, the three scanners into the typed destination `dest`,
-      measured TotalAlloc of `Unmarshal`, of `Decode` and of `ewkb.Scanner(dest).Scan`, re-encoding stability.
+      package wkb's own `Unmarshal` and stream `Decode` (the model's outcome with the SRID dropped), the three
+      scanners handed the bytes as a string / a nil slice (`X`: unsupported data type / not valid, six classes),
+      measured TotalAlloc of `Unmarshal`, of `Decode`, of `ewkb.Scanner(dest).Scan`, of `wkb.Unmarshal` and of
+      wkb's `Decode`, re-encoding stability.
       Every outcome is compared with the model; every measured allocation with what the MODEL's accounting of
       the decoder's own `make` calls says (`unmarshalAlloc`, `decodeAlloc`, `scanDestAlloc` in Orb/WKB.lean),
       and the model's figure with the property's bound `allocPerByte·len + allocFixed`.
@@ -17,7 +20,12 @@ import Driver.C04
       compared with what the decoders must say about `k` nested one-member multis / collections)
     `wkt` / `mvt` / `gj`: the hostile streams, judged by the handlers of C04 / C03 / C02; C05 adds the
       watchdog verdict and, for `mvt`, the property's own allocation bound against the INPUT length
-      (C03 judges `UnmarshalGzipped` against the unzipped length). -/
+      (C03 judges `UnmarshalGzipped` against the unzipped length).  The harness appends `; ep <calls> <name:panic>…`
+      (every listed entry point of the family called directly on the same bytes: a panic there fails the case
+      unless the delegated verdict is a failure already) and, for `gj`, `; wf 0|1` (the bytes are a well-formed
+      document: the label `panic-bson-corrupt-document` is kept only when they are not).
+    `selftest [run] => ok <listed> <called> | fail … | noprops`: every public entry point props.json lists
+      for C05 is in the harness's table and has been called. -/
 namespace Driver.C05
 open Orb Orb.Proto Orb.WKB Driver.C01
 
@@ -67,11 +75,25 @@ def handleWkb (inp out : Toks) : String :=
      | some bs =>
        if out == ["panic"] then "propfail panic harness" else
        match splitSemi out with
-       | [um, st, sc, psc, wsc, dsc, dpsc, dwsc, fl] =>
+       | [um0, st0, sc0, psc0, wsc0, dsc0, dpsc0, dwsc0, wum0, wst0, "X" :: xs, fl] =>
          let j (t : Toks) := " ".intercalate t
-         let all := [um, st, sc, psc, wsc, dsc, dpsc, dwsc]
-         if all.any (· == ["panic"]) then "propfail panic wkb" else
-         if all.any (· == ["timeout"]) then "propfail timeout wkb" else
+         -- the harness writes a long outcome once: `= k` stands for the k-th outcome
+         let raw := [um0, st0, sc0, psc0, wsc0, dsc0, dpsc0, dwsc0, wum0, wst0]
+         let ex (t : Toks) : Toks :=
+           match t with
+           | ["=", k] => (match k.toNat? with | some k => raw.getD k ["bad-reference"] | none => ["bad-reference"])
+           | _ => t
+         let um := ex um0; let st := ex st0; let sc := ex sc0; let psc := ex psc0; let wsc := ex wsc0
+         let dsc := ex dsc0; let dpsc := ex dpsc0; let dwsc := ex dwsc0; let wum := ex wum0; let wst := ex wst0
+         let all := [um, st, sc, psc, wsc, dsc, dpsc, dwsc, wum, wst]
+         let names := ["ewkb.Unmarshal", "ewkb.Decoder", "ewkb.Scanner", "ewkb.ScannerPrefixSRID", "wkb.Scanner",
+           "ewkb.Scanner(dest)", "ewkb.ScannerPrefixSRID(dest)", "wkb.Scanner(dest)", "wkb.Unmarshal", "wkb.Decoder"]
+         let who (what : String) : String :=
+           " ".intercalate ((names.zip all).filterMap fun (n, o) => if o == [what] then some n else none)
+         if all.any (· == ["panic"]) then "propfail panic wkb " ++ who "panic" else
+         if all.any (· == ["timeout"]) then "propfail timeout wkb " ++ who "timeout" else
+         if xs.any (· == "panic") then "propfail panic wkb scan-of-non-bytes" else
+         if xs.any (· == "timeout") then "propfail timeout wkb scan-of-non-bytes" else
          let len := bs.length
          let lift (r : R G) : R (G × Nat) :=
            match r with | .ok g => .ok (g, 0) | .err e => .err e | .panic s => .panic s
@@ -83,14 +105,22 @@ def handleWkb (inp out : Toks) : String :=
          let mDsc := ewkbScan bndF false d bs
          let mDpsc := ewkbScan bndF true d bs
          let mDwsc := lift (wkbScan bndF d bs)
+         -- package wkb's wrappers drop the SRID and map the errors class by class
+         let drop (r : R (G × Nat)) : R (G × Nat) :=
+           match r with | .ok (g, _) => .ok (g, 0) | r => r
+         let mwum := showOutcome (drop (unmarshal bs))
+         let mwst := showOutcome (drop (decode bs))
+         -- a string is an unsupported data type, a nil slice is SQL NULL (no value, no error), for all three
+         let mxs := ["err:datatype", "invalid", "err:datatype", "invalid", "err:datatype", "invalid"]
          let agree := j um == mum && j st == mst && j sc == showOutcome aSc && j psc == showOutcome aPsc
            && j wsc == showOutcome aWsc
            && sameScan d aSc mDsc (j dsc) && sameScan d aPsc mDpsc (j dpsc) && sameScan d aWsc mDwsc (j dwsc)
-         let diff := s!"diff {mum} ; {mst} ; {showOutcome aSc} ; {showOutcome aPsc} ; {showOutcome aWsc} ; {showOutcome mDsc} ; {showOutcome mDpsc} ; {showOutcome mDwsc}"
+           && j wum == mwum && j wst == mwst && xs == mxs
+         let diff := s!"diff {mum} ; {mst} ; {showOutcome aSc} ; {showOutcome aPsc} ; {showOutcome aWsc} ; {showOutcome mDsc} ; {showOutcome mDpsc} ; {showOutcome mDwsc} ; {mwum} ; {mwst} ; X {j mxs}"
          (match fl with
-          | ["A", aum, ast, asc, stable] =>
-            (match aum.toNat?, ast.toNat?, asc.toNat? with
-             | some aum, some ast, some asc =>
+          | ["A", aum, ast, asc, stable, awum, awst] =>
+            (match aum.toNat?, ast.toNat?, asc.toNat?, awum.toNat?, awst.toNat? with
+             | some aum, some ast, some asc, some awum, some awst =>
                -- the model's accounting of the decoder's own `make` calls
                let mAum := unmarshalAlloc bs
                let mAst := decodeAlloc bs
@@ -99,6 +129,8 @@ def handleWkb (inp out : Toks) : String :=
                if aum > measuredBound mAum len then s!"propfail alloc-unexplained wkb-unmarshal measured={aum} model={mAum} len={len}" else
                if ast > measuredBound mAst len then s!"propfail alloc-unexplained wkb-decode measured={ast} model={mAst} len={len}" else
                if asc > measuredBound mAsc len then s!"propfail alloc-unexplained wkb-scan measured={asc} model={mAsc} len={len}" else
+               if awum > measuredBound mAum len then s!"propfail alloc-unexplained wkb-unmarshal-plain measured={awum} model={mAum} len={len}" else
+               if awst > measuredBound mAst len then s!"propfail alloc-unexplained wkb-decode-plain measured={awst} model={mAst} len={len}" else
                if stable != "1" then "propfail reencode-unstable" else
                if !agree then diff else
                -- (2) the model's figure is within the property's bound (theorems decode_alloc_le,
@@ -114,7 +146,7 @@ def handleWkb (inp out : Toks) : String :=
                  then "propfail result-too-deep wkb-unmarshal" else
                let typed := if d == .any then "" else if (j dsc).startsWith "ok" then " typed-ok" else " typed-err"
                if (j um).startsWith "ok" then "ok wkb-value" ++ typed else "ok wkb-error " ++ (j um) ++ typed
-             | _, _, _ => "bad alloc")
+             | _, _, _, _, _ => "bad alloc")
           | _ => "bad flags")
        | _ => "bad output")
 
@@ -145,6 +177,70 @@ def handleNest (inp out : Toks) : String :=
         | "err" :: _ => if " ".intercalate out == want then s!"ok wkbnest {kind} err" else s!"diff {want}"
         | _ => "bad output"))
   | _ => "bad input"
+
+/-- `selftest`: the harness's table of entry points against props.json and its call counters. -/
+def handleSelfTest (out : Toks) : String :=
+  match out with
+  | ["ok", listed, called] =>
+    (match listed.toNat?, called.toNat? with
+     | some l, some c => if l == 0 || c < l then s!"propfail selftest listed={l} called={c}" else "ok selftest"
+     | _, _ => "bad selftest")
+  | "fail" :: names => "propfail selftest entry-point-never-called " ++ " ".intercalate (names.take 12)
+  | ["noprops"] => "bad selftest props.json-not-found"
+  | _ => "bad selftest"
+
+/-- What c05.go appends to a delegated runner's output, taken off the end. -/
+structure Tail where
+  out : Toks                      -- the delegated runner's own output
+  bad : List String := []         -- `name:panic:origin` of the entry points that panicked when called directly
+  wf : Option Bool := none        -- the bytes are a well-formed document
+  pw : Option (List String) := none  -- origins of the panics C02's runner reported (decodes repeated)
+
+def splitTail (out : Toks) : Tail :=
+  let secs := splitSemi out
+  let rec go (rev : List Toks) (t : Tail) : List Toks × Tail :=
+    match rev with
+    | ("ep" :: _ :: names) :: rest => go rest { t with bad := names ++ t.bad }
+    | ["wf", b] :: rest => go rest { t with wf := some (b == "1") }
+    | ("pw" :: os) :: rest => go rest { t with pw := some os }
+    | _ => (rev.reverse, t)
+  let (keep, t) := go secs.reverse { out := [] }
+  { t with out := " ; ".intercalate (keep.map fun t => " ".intercalate t) |>.splitOn " " |>.filter (· != "") }
+
+/-- a panic of an entry point called directly fails the case, unless the delegated verdict is a failure
+    already (a known panic of the same decoder reached through json.Unmarshal / bson.Unmarshal) -/
+def withDirect (op : String) (bad : List String) (v : String) : String :=
+  if bad.isEmpty || v.startsWith "propfail" || v.startsWith "bad" then v
+  else s!"propfail panic entry-point {op} " ++ " ".intercalate (bad.take 8)
+
+def typedBsonHelpers : List String :=
+  ["Point", "MultiPoint", "LineString", "MultiLineString", "Polygon", "MultiPolygon"].map fun t =>
+    s!"geojson.{t}.UnmarshalBSON:panic:orb"
+
+/-- `gj`: C02's verdict, with the known-finding labels for panics narrowed:
+    * `panic-bson-corrupt-document` (the third-party panic on corrupt lengths) is kept only when the bytes are
+      NOT a well-formed document and every panic was raised inside go.mongodb.org/mongo-driver; any other
+      panic on a document outside the model's alphabet is `panic-bson-document …` (unlisted);
+    * the entry points called directly: third-party panics on corrupt bytes get the same label; the six typed
+      helpers dereferencing the nil `*Geometry` that bson.Unmarshal leaves for a document whose length field
+      is zero are `panic-typed-helper-bson-zero-length`; everything else is `panic entry-point …`. -/
+def handleGj (inp out : Toks) : String :=
+  let t := splitTail out
+  let v := Driver.C02.handleHostile inp t.out
+  let isBson := inp.head? == some "bson"
+  let v :=
+    if v == "propfail panic-bson-corrupt-document" then
+      if t.wf == some false && t.pw == some ["bson"] then v
+      else s!"propfail panic-bson-document wellformed={t.wf == some true} origin=" ++ "+".intercalate (t.pw.getD ["?"])
+    else v
+  if t.bad.isEmpty || v.startsWith "propfail" || v.startsWith "bad" then v else
+  let own := t.bad.filter fun b => !b.endsWith ":panic:bson"
+  if own.isEmpty then
+    (if isBson && t.wf == some false then "propfail panic-bson-corrupt-document"
+     else "propfail panic-bson-document direct wellformed=true " ++ " ".intercalate (t.bad.take 8))
+  else if isBson && (match inp with | [_, hx] => hx.startsWith "00000000" | _ => false)
+      && own.all (typedBsonHelpers.contains ·) then "propfail panic-typed-helper-bson-zero-length"
+  else withDirect "gj" own v
 
 /-- the property's allocation bound for `mvt.UnmarshalGzipped`, against the length of the INPUT -/
 def gzipBound (len : Nat) : Nat := 512 * len + 1048576
@@ -195,9 +291,10 @@ def handle (ts : Toks) : String :=
     match op with
     | "wkb" => handleWkb inp out
     | "wkbnest" => handleNest inp out
-    | "wkt" => handleWkt inp out
-    | "mvt" => handleMvt inp out
-    | "gj" => Driver.C02.handleHostile inp out
+    | "selftest" => handleSelfTest out
+    | "wkt" => let t := splitTail out; withDirect op t.bad (handleWkt inp t.out)
+    | "mvt" => let t := splitTail out; withDirect op t.bad (handleMvt inp t.out)
+    | "gj" => handleGj inp out
     | _ => "bad op " ++ op
   | [] => "bad empty"
 
